@@ -263,6 +263,7 @@ theorem never_move_swap (s : State) (v : Nat) (hv : v < 2) (r : Res State) (h : 
 /-! ### Pointer level: the relinking code of List.hpp -/
 
 /-- `insert(position, value)`, `insert(position, list)` (the loop inserting in front of one fixed item),
+    `insert(position, *this)` (the walk over the original items that skips the copies just inserted),
     `remove(iterator)`, `remove(value)` (with the `find` loop), `clear()` and `sort()` (the quicksort with item pointers,
     `ptr->next` heap reads and the `ptr2 != right` pointer comparison) written statement by statement over a heap
     of items with `value/prev/next` fields, the end sentinel, `_begin`, `freeItem` and 4-item blocks
